@@ -35,6 +35,8 @@ CHECKS = {
          'simulated worker pool (fork, pickled tasks, duplicate / reorder / death faults) + effect counting seam + RNG-seam reconstruction + closed-form reference posterior'),
  'C13': ('Seeded search over simulated fitting sessions (both least-squares strategies, full images and seeded / unseeded pixel subsets, Mie and MieLens incl. fitted lens angle): the same fit again on the same objects, another data set on a strategy that has fitted before, the same model on another strategy, result queries, save -> restart -> load -> re-save, under clock jumps between the two time.time() calls of a fit (simulated clock), foreign draws from the global RNG and a KeyboardInterrupt injected inside the n-th forward evaluation of an earlier fit. Fits must be bitwise repeatable, equal the same fit in a pristine interpreter, leave model and data unchanged and the strategy reusable; a cancellation must propagate (and the fit must return: bounded liveness); the result must be consistent with the forward model at the reported parameters, and reload to an equivalent result. Fixed point, misfit monotonicity, prior bounds and single-sphere recovery are evaluated on the same histories.', '5 C13',
          'history simulation with clock / RNG / cancellation faults and restart, pristine-node refinement of whole fits, reload pairs'),
+ 'C15': ('Seeded search over simulated sessions with a file-system reference model (path -> snapshot of the last acknowledged object): objects drawn from a grammar over every exported scatterer, theory, prior (incl. complex, arithmetic and ufunc-derived), strategy and model class (ties, constraints, per-channel optics, calc_func) with extreme floats, complex, NumPy scalars of several dtypes, arrays, tuples and explicit Nones are saved to paths and streams, reloaded in the same or a freshly restarted interpreter, re-saved (1..3 cycles), overwritten, read through short-read / non-seekable / buffered streams and written to failing buffered sinks, with libc-level faults (errno, short transfer, EINTR, crash, torn write) injected at chosen call indices of a save or load. An acknowledged save must load to the same class and constructor arguments (containers normalised, Nones included), dumping the reloaded object must reproduce the text byte for byte, == must hold for list/scalar arguments, a faulted operation may only fail, and a load may never return a different fully formed object.', '5 C15',
+         'fault-injected I/O simulation (LD_PRELOAD syscall shim, hostile streams, restarts) against a file-system reference model'),
 }
 
 def main():
